@@ -443,6 +443,53 @@ theorem C19_header_identity_eq_status (pfx : List Char) (t : Tables) :
     obtain ⟨s', _, rfl⟩ := List.mem_map.mp hb
     exact d13 (fileName_inj e1 e3 hab).2
 
+/-! ### One source object, many calls -/
+
+/-- a history seen through the configuration alone -/
+def cfgRun : LCfg → List LStep → List (Option Tables)
+  | _, [] => []
+  | c, s :: ss =>
+    let c' := match s with
+      | .configure d => d
+      | .retry => c
+    (lanceroPrepare c').toOption :: cfgRun (lanceroNext c') ss
+
+/-- **History independence (one call).** What `PrepareChannels` reports on a `LanceroSource` object — streams AND
+channel groups — is `lanceroPrepare` of the configuration it sees; the group list left by earlier calls (`o.groups`)
+does not enter: an accepted call re-initialises it. The configuration it leaves is `lanceroNext`. -/
+theorem C19_groups_history_independent (o : LObj) :
+    (lanceroObjPrepare o).2 = Input.model (.lancero o.cfg) ∧
+    (lanceroObjPrepare o).1.cfg = lanceroNext o.cfg ∧
+    ∀ stale : List Group, (lanceroObjPrepare { o with groups := stale }).2 = (lanceroObjPrepare o).2 := by
+  have key : ∀ o : LObj, (lanceroObjPrepare o).2 = (lanceroPrepare o.cfg).toOption := by
+    intro o
+    unfold lanceroObjPrepare lanceroPrepare
+    cases lanceroValidate o.cfg <;> simp [Except.toOption]
+  refine ⟨key o, ?_, fun stale => by rw [key, key]⟩
+  unfold lanceroObjPrepare lanceroNext
+  cases lanceroValidate o.cfg <;> rfl
+
+/-- **History independence (any history).** For every object state and every sequence of reconfigurations and
+retries, the tables reported after each step are those of the configuration that step sees. Together with
+`C19_model_passes_oracle` every accepted step of every history satisfies the oracle. -/
+theorem C19_history_independent (o : LObj) (steps : List LStep) : lanceroRun o steps = cfgRun o.cfg steps := by
+  induction steps generalizing o with
+  | nil => rfl
+  | cons s ss ih =>
+    unfold lanceroRun cfgRun
+    cases s with
+    | configure d =>
+      obtain ⟨h1, h2, _⟩ := C19_groups_history_independent { o with cfg := d }
+      simp only [lanceroObjStep, h1, Input.model, ih, h2]
+    | retry =>
+      obtain ⟨h1, h2, _⟩ := C19_groups_history_independent o
+      simp only [lanceroObjStep, h1, Input.model, ih, h2]
+
+/-- the seeded scenario: column separation changed from 100 to 10 on the same object — the second report has the two
+groups of the new numbering only -/
+example : (lanceroRun LObj.fresh [.configure ⟨1, 0, 100, [⟨0, 2, 4⟩]⟩, .configure ⟨1, 0, 10, [⟨0, 2, 4⟩]⟩]).map
+    (fun r => r.map (·.groups)) = [some [⟨1, 4⟩, ⟨101, 4⟩], some [⟨1, 4⟩, ⟨11, 4⟩]] := by decide
+
 /-! ### The model passes the run-time oracle -/
 
 /-- device numbers distinct (Lancero); nothing to assume for the other kinds -/
@@ -528,7 +575,7 @@ theorem C19_model_passes_oracle (inp : Input) (hv : inp.Valid) (hf : inp.Fits16)
       rw [if_neg (by intro hh; exact hh.2 (h2 hh.1))]
       rw [if_neg (by simpa using (dupFree_iff_nodup _).mpr h3)]
       rw [if_neg (by simpa using names_enc_dupFree _ h4)]
-      rw [if_neg (by rw [h5]; simpa using sameSet_refl _)]
+      rw [if_neg (by rw [h5]; simpa using sameBag_refl _)]
       rw [if_neg (by simpa using h6)]
   · intro t h pfx
     obtain ⟨_, _, _, h4⟩ := model_unique inp t hv h
@@ -537,14 +584,16 @@ theorem C19_model_passes_oracle (inp : Input) (hv : inp.Valid) (hf : inp.Fits16)
     rw [if_neg (by simpa using e4 h4), if_neg (by simpa using e1)]
 
 /-- and conversely the oracle is sound: tables it accepts have distinct numbers per pixel, distinct names, agreeing
-partners and groups covering exactly the numbers in use -/
+partners, and the members of the reported groups (with multiplicity) are a rearrangement of the numbers in use:
+every number in use lies in exactly one group, no group has a member that is not in use -/
 theorem C19_oracle_sound (tdm : Bool) (geom : List (Nat × Nat × Nat × Nat)) (t : Tables)
     (dec : List (Nat × Nat × Nat × Nat)) (h : chkTables tdm geom t dec = none) :
     t.streams.length = t.nchan ∧
     (tdm = true → evens (t.streams.map (·.num)) = odds (t.streams.map (·.num))) ∧
     (if tdm then evens (t.streams.map (·.num)) else t.streams.map (·.num)).Nodup ∧
     (t.streams.map (·.name)).Nodup ∧
-    (∀ x, x ∈ (if tdm then evens (t.streams.map (·.num)) else t.streams.map (·.num)) ↔ x ∈ allChans t.groups) ∧
+    (if tdm then evens (t.streams.map (·.num)) else t.streams.map (·.num)).Perm (allChans t.groups) ∧
+    (allChans t.groups).Nodup ∧
     dec = (if tdm then dup2 geom else geom) := by
   simp only [chkTables] at h
   generalize (if tdm = true then evens (t.streams.map (·.num)) else t.streams.map (·.num)) = pix at h ⊢
@@ -561,7 +610,9 @@ theorem C19_oracle_sound (tdm : Bool) (geom : List (Nat × Nat × Nat × Nat)) (
   rename_i h5
   split at h; · cases h
   rename_i h6
-  refine ⟨by simpa using h1, ?_, ?_, ?_, ?_, by simpa using h6⟩
+  have hperm : pix.Perm (allChans t.groups) := sameBag_sound _ _ (by simpa using h5)
+  have hnd : pix.Nodup := (dupFree_iff_nodup _).mp (by simpa using h3)
+  refine ⟨by simpa using h1, ?_, ?_, ?_, hperm, hperm.nodup_iff.mp hnd, by simpa using h6⟩
   · intro ht; exact Classical.byContradiction (fun hne => h2 ⟨ht, hne⟩)
   · exact (dupFree_iff_nodup _).mp (by simpa using h3)
   · have := (dupFree_iff_nodup _).mp (by simpa using h4)
@@ -569,6 +620,5 @@ theorem C19_oracle_sound (tdm : Bool) (geom : List (Nat × Nat × Nat × Nat)) (
       rw [List.map_map]; rfl
     rw [e] at this
     exact nodup_of_nodup_map _ _ this
-  · exact sameSet_sound _ _ (by simpa using h5)
 
 end DastardV.C19
